@@ -43,6 +43,7 @@ def run(chk: Check, proj: Project) -> None:
     s9_no_token_lost(chk, proj, m, f)
     s10_same_as_django(chk, proj, m, f)
     s11_string_body_language(chk, proj)
+    s13_repaired_token_keeps_its_line(chk, proj)
     from . import C12
 
     chk.borrow("S12", "malformed tags end in TemplateSyntaxError, not in a crash of the scanner: every text[<index>] read of the quote-aware tag scanner is guarded by a fresh bounds test for that offset (shared with C12-S2b)",
@@ -88,6 +89,12 @@ def s7_fresh_lexer(chk: Check, proj: Project, m, f) -> bool:
 
         carried = any(st.value is not None and from_contents(st.value) and any(isinstance(x, ast.Constant) and isinstance(x.value, str) and "verbatim" in x.value for y in [st.value] + [v for n2 in ast.walk(st.value) if isinstance(n2, ast.Name) for _s, v in assignments(f, n2.id) if v is not None] for x in ast.walk(y)) for st in upd)
         why = f"`{V}` is not updated from the handed-over token's contents"
+    # ... and ONLY from it: the previous round's lexer has tokenized the whole rest of the text, so its `verbatim` attribute is
+    # the state at the END of the text, not the state at the fixed tag
+    stale = [st for st in stmts(f) if isinstance(st, ast.Assign) and any(isinstance(x, ast.Attribute) and x.attr == "verbatim" and isinstance(x.ctx, ast.Load) for x in ast.walk(st.value))]
+    chk.ob("S7", "util.template_parser:parse_template:verbatim-state-not-read-back-from-a-lexer", m.loc(stale[0]) if stale else m.loc(f), not stale,
+           "no lexer's `verbatim` attribute is read: the state after the fixed tag is computed from the tag alone" if not stale else
+           f"`{short(stale[0])}` takes the state from a lexer that has already run to the end of the text: when the source ends inside a verbatim block (an unclosed {{% verbatim %}} much later, or one that only occurs inside the quoted string) every {{{{ }}}} / {{% %}} after the repaired tag comes out as TEXT")
     chk.ob("S7", "util.template_parser:parse_template:verbatim-state-carried", m.loc(sets[0]) if sets else m.loc(lex[0]), carried,
            "the resuming lexer's `verbatim` is set from a variable that the hand-over branch derives from the fixed token's contents" if carried else
            f"{why}: a `{{% verbatim \"x\" %}}` tag (it contains a quote, so it is handed over) is followed by a lexer that tokenizes the block's content ({{{{ a }}}} becomes a VAR token) although stock Django keeps it as TEXT")
@@ -141,6 +148,23 @@ def _django_create_token() -> ast.FunctionDef:
     if fn is None:
         raise AnalysisError("django Lexer.create_token not found")
     return fn
+
+
+def s13_repaired_token_keeps_its_line(chk: Check, proj: Project) -> None:
+    chk.rule("S13", "the repaired token carries the line of its `{%` - the line number it was called with, unchanged: parse_template adds ALL newlines of the span to that number for the next segment, so any adjustment inside the tag scanner is counted twice")
+    m, f = proj.func("util.template_parser", "_detailed_tag_parser")
+    chk.analysed(fkey(m, f))
+    lp = next((p_ for p_ in params(f) if "line" in p_), None)
+    toks = [c for c in ast.walk(f) if isinstance(c, ast.Call) and last_attr(c.func) == "Token"]
+    if lp is None or not toks:
+        chk.undecided("S13", "util.template_parser:_detailed_tag_parser:lineno-unchanged", m.loc(f), "line-number parameter / Token construction not found")
+        return
+    writes = [x for x in ast.walk(f) if (isinstance(x, ast.AugAssign) and norm(x.target) == lp) or (isinstance(x, ast.Assign) and any(norm(t) == lp for t in x.targets))]
+    passed = any(norm(a) == lp for c in toks for a in list(c.args) + [k.value for k in c.keywords])
+    ok = not writes and passed
+    chk.ob("S13", "util.template_parser:_detailed_tag_parser:lineno-unchanged", m.loc(writes[0]) if writes else m.loc(toks[0]), ok,
+           f"Token(..., {lp}) receives the parameter as it came in" if ok else
+           f"`{short(writes[0]) if writes else short(toks[0])}` changes the line number of the repaired token: for a quoted tag written with a newline directly after `{{%` the token reports a later line, parse_template counts those newlines again, and every following token drifts (cumulatively per such tag)")
 
 
 def s11_string_body_language(chk: Check, proj: Project) -> None:
